@@ -166,6 +166,11 @@ pub fn generate(prop: &str, rng: &mut Rng, plan: &mut Plan, index: u64) {
         }
     }
     sp.setpgid = rng.chance(1, 4);
+    // a signal that cannot be delivered for once (EPERM): the child is still the caller's to signal later
+    if prop != "C11" && rng.chance(1, 8) {
+        plan.knobs.faults.kill_fail = Some((1 + rng.below(2) as u32, libc::EPERM));
+        plan.knobs.batch = "faulty".into();
+    }
     // a signal handler of the application runs while the parent is blocked in wait()
     if prop != "C11" && rng.chance(1, 6) {
         plan.knobs.faults.eintr = Some((1 + rng.below(3) as u32, 1 + rng.below(3) as u32, *rng.pick(&[4u8, 4, 12])));
